@@ -1,6 +1,6 @@
 ENGINES = [
     {'name': 'mirsym', 'path': '/verif/mirsym',
-     'serves_properties': ['C01', 'C04', 'C12', 'C16', 'C17', 'C18', 'C19'],
+     'serves_properties': ['C01', 'C04', 'C05', 'C12', 'C16', 'C17', 'C18', 'C19'],
      'kind_free_text': 'symbolic executor over the MIR that rustc emits for /repo\'s working tree (regenerated per tree state); std modelled at the call boundary; z3 QF_BV decides every branch and every obligation; counterexamples replayed natively through /verif/replay'},
 ]
 NOTES = 'Every check: exit 0 = held for all inputs inside the stated bounds (KNOWN-FINDING lines allowed); exit 1 = natively reproducing violation; exit 2 = inconclusive (unsupported construct, solver unknown, model/native mismatch, vacuous harness) and is never reported as a pass.'
@@ -48,9 +48,15 @@ CHECKS['C04'] = {
     'note': 'the two git diffs are environment models derived from the ground truth (validated by the native replay, which runs the real git); replace-type unstaged hunks and multi-commit sequences are outside (single step decided for an arbitrary pending state)',
     'technique': 'MIR symbolic execution + z3 (bounded) over a ground-truth model of the working tree, native replay on a real repository',
 }
+CHECKS['C05'] = {
+    'text': 'Kernel claim. Bounded symbolic execution of the real attestation builders (build_file_attestation_from_line_attributions, upsert_file_attestation, build_authorship_log_from_state, VirtualAttributions::to_authorship_log, LineRange::compress_lines) over arbitrary symbolic line attributions: one attestation per file, one entry per session, never a human entry, ranges sorted / disjoint / non-adjacent with Single iff start == end, for EVERY line l the line is listed for a session iff one of that session\'s attributions covers it (universally quantified l), only existing files, base = the given commit. The serialized form is the C17 check; the note half of the commit path is checked under C04.',
+    'design_ref': 'DESIGN.md §4 C05',
+    'note': 'inputs satisfy start <= end; notes-tree fan-out (K3) and object-database facts are not encoded',
+    'technique': 'MIR symbolic execution + z3 (bounded; line numbers fully symbolic u32), native replay',
+}
 _PENDING = 'check not built yet in this round (under construction; see DESIGN.md §4)'
 NOT_APPLICABLE = {
-    'C02': _PENDING, 'C03': _PENDING, 'C05': _PENDING, 'C06': _PENDING,
+    'C02': _PENDING, 'C03': _PENDING, 'C06': _PENDING,
     'C07': _PENDING, 'C08': _PENDING, 'C09': _PENDING, 'C14': _PENDING, 'C15': _PENDING,
     'C20': _PENDING,
     'C10': 'convergence of notes across clones is decided by git\'s notes-merge / ref-transaction semantics over several repositories; git-ai\'s part is a fixed sequence of subprocess calls with no branch the solver could decide (DESIGN.md §7)',
